@@ -40,8 +40,10 @@ func curGid() uint64 {
 
 // gate is the kvs.Storage handed to the lock providers. Every Create, Delete and the
 // return of every WaitForVersionChange issued by a registered worker goroutine is parked
-// until the scheduler releases it; calls of other goroutines (renewal timers) pass through
-// and are counted.
+// until the scheduler releases it. EVERY call that crosses the interface is recorded, also
+// those of goroutines that are not workers (timers): a renewal CasByVersion is a legitimate
+// label of the model (inferred: TimerFire, StCas, Rearm); a Create or Delete that no operation
+// in progress issued is not a label the model accepts in any state.
 type gate struct {
 	d     *driver
 	inner kvs.Storage
@@ -57,6 +59,8 @@ func errClass(err error) string {
 		return "exist"
 	case errors.Is(err, gerrors.ErrNotExist):
 		return "notexist"
+	case errors.Is(err, gerrors.ErrConflict):
+		return "conflict"
 	case errors.Is(err, context.Canceled), errors.Is(err, context.DeadlineExceeded):
 		return "ctx"
 	}
@@ -64,21 +68,36 @@ func errClass(err error) string {
 }
 
 func (g *gate) Create(ctx context.Context, record kvs.Record) (string, error) {
-	w := g.d.workerOf(curGid())
-	if w == nil || g.d.passThrough() {
+	if g.d.passThrough() {
 		return g.inner.Create(ctx, record)
+	}
+	g.d.checkLapse()
+	w := g.d.workerOf(curGid())
+	if w == nil {
+		// a Create that no Lock/TryLock/LockWithCtx in progress issued (kvlock.go creates the record
+		// only on the caller's goroutine): applied, recorded, reported by the scheduler
+		g.d.stMu.Lock()
+		v, err := g.inner.Create(ctx, record)
+		g.d.noteForeign(foreignEv{k: "create", cls: errClass(err)}, err == nil, record.ExpiresAt)
+		g.d.stMu.Unlock()
+		return v, err
 	}
 	f := g.d.park(w, rawEv{k: "arrive-create"})
 	if f == fReqLost {
 		g.d.note(w, rawEv{k: "released-create", flt: f, cls: "lost"})
 		return "", ErrInjected
 	}
+	g.d.stMu.Lock()
 	v, err := g.inner.Create(ctx, record)
 	w.lastExistVer = ""
 	if errClass(err) == "exist" {
 		w.lastExistVer = v
 	}
-	g.d.note(w, rawEv{k: "released-create", flt: f, cls: errClass(err)})
+	g.d.note(w, rawEv{k: "released-create", flt: f, cls: errClass(err), ver: v})
+	if err == nil {
+		g.d.setRecExp(record.ExpiresAt)
+	}
+	g.d.stMu.Unlock()
 	if f == fReplyLost {
 		return "", ErrInjected
 	}
@@ -86,17 +105,34 @@ func (g *gate) Create(ctx context.Context, record kvs.Record) (string, error) {
 }
 
 func (g *gate) Delete(ctx context.Context, key string) error {
-	w := g.d.workerOf(curGid())
-	if w == nil || g.d.passThrough() {
+	if g.d.passThrough() {
 		return g.inner.Delete(ctx, key)
+	}
+	g.d.checkLapse()
+	w := g.d.workerOf(curGid())
+	if w == nil {
+		// a Delete that no Unlock in progress issued (a timer, a background goroutine)
+		g.d.stMu.Lock()
+		err := g.inner.Delete(ctx, key)
+		g.d.noteForeign(foreignEv{k: "delete", cls: errClass(err)}, false, nil)
+		if err == nil {
+			g.d.setRecExp(nil)
+		}
+		g.d.stMu.Unlock()
+		return err
 	}
 	f := g.d.park(w, rawEv{k: "arrive-delete"})
 	if f == fReqLost {
 		g.d.note(w, rawEv{k: "released-delete", flt: f, cls: "lost"})
 		return ErrInjected
 	}
+	g.d.stMu.Lock()
 	err := g.inner.Delete(ctx, key)
 	g.d.note(w, rawEv{k: "released-delete", flt: f, cls: errClass(err)})
+	if err == nil {
+		g.d.setRecExp(nil)
+	}
+	g.d.stMu.Unlock()
 	if f == fReplyLost {
 		return ErrInjected
 	}
@@ -115,9 +151,20 @@ func (g *gate) WaitForVersionChange(ctx context.Context, key, ver string) error 
 	return err
 }
 
+// CasByVersion: the renewal call of supportTimeout, issued by a timer goroutine. It is not parked
+// (a parked callback would occupy a watcher of the timer pool); it is applied under the storage
+// mutex, so its place among the other storage calls is known, and recorded for label inference
+// (TimerFire / StCas / Rearm).
 func (g *gate) CasByVersion(ctx context.Context, record kvs.Record) (kvs.Record, error) {
-	g.d.countForeign("cas")
-	return g.inner.CasByVersion(ctx, record)
+	if g.d.passThrough() {
+		return g.inner.CasByVersion(ctx, record)
+	}
+	g.d.checkLapse()
+	g.d.stMu.Lock()
+	r, err := g.inner.CasByVersion(ctx, record)
+	g.d.noteForeign(foreignEv{k: "cas", cls: errClass(err), ver: record.Version, newVer: r.Version}, err == nil, record.ExpiresAt)
+	g.d.stMu.Unlock()
+	return r, err
 }
 
 func (g *gate) Get(ctx context.Context, key string) (kvs.Record, error) {
